@@ -20,6 +20,9 @@ header: retry [max=N] [dyn=1] [retry=<bitmask of retryable kinds>] [bo=fixed:D|e
         answers Pending until <ms> after the call it last served
 ops:    arrive <c> [ma=N] [svc=<k>] [lclone=1] [h=same|clone] inner=<lat>:<out>,…   poll/drop/adv/settle
         probe balance|limit   manual deposit|withdraw
+log:    besides inner_call / inner_done / inner_drop / result / probe: `budget <c> grant|refused` — the answer of the budget
+        to a try_withdraw made by the loop of request c (logged by a wrapper around the budget handed to the layer); meta
+        `#budget_exhausted <attempt>` — the layer's BudgetExhausted listener event
 """
 import re
 from gen.util import kvs, tparse
@@ -551,12 +554,15 @@ def canon(lines):
 
 def _observed(lines, meta):
     """answers of the interval-function object: [(caller, retry index, ns, position in the log)] — the `#bo k ns` meta
-    line follows the `inner_done` of the attempt whose failure made the loop ask"""
+    line follows the `inner_done` of the attempt whose failure made the loop ask (and the budget's `grant` line)"""
     out = []
     for pos, m in meta:
         ws = m.split()
         if len(ws) == 3 and ws[0] == "#bo" and pos >= 1:
             _, w = tparse(lines[pos - 1])
+            if pos >= 2 and _budget_line(lines[pos - 1]) is not None:      # … and the budget's grant, if there is a budget
+                _, w0 = tparse(lines[pos - 2])
+                w = w0 if len(w0) > 1 and w0[1] == w[1] and _budget_line(lines[pos - 1])[1] else []
             c = w[1] if len(w) > 1 and w[0] == "inner_done" else None
             out.append((c, int(ws[1]), int(ws[2]), pos))
     return out
@@ -576,6 +582,22 @@ def _per_caller(lines):
             continue
         per.setdefault(w[1], []).append((w[0], t, w, i))
     return per
+
+
+def _budget_line(line, c=None):
+    """`budget <c> grant|refused` -> (c, granted) (None if the line is not one, or not of request c)"""
+    _, w = tparse(line)
+    if len(w) == 3 and w[0] == "budget" and w[2] in ("grant", "refused") and (c is None or w[1] == c):
+        return w[1], w[2] == "grant"
+    return None
+
+
+def _after_budget(lines, i, c):
+    """index of the first line after line i that is not a budget line of request c"""
+    j = i + 1
+    while j < len(lines) and _budget_line(lines[j], c) is not None:
+        j += 1
+    return j
 
 
 def _errkind(out):
@@ -625,7 +647,7 @@ def mon_stop(case, lines, meta):
                         return "request %s: outcome %s of call %s is final but the result was not delivered in that step" % (c, out, w[2])
                 elif ek is not None:
                     nxt = evs[j + 1] if j + 1 < len(evs) else None
-                    stopped = nxt is not None and nxt[0] == "result" and nxt[3] == i + 1
+                    stopped = nxt is not None and nxt[0] == "result" and nxt[3] == _after_budget(lines, i, c)
                     if stopped and nxt[2][2] == READY_ERR and "e" in cfg["ready"]:
                         stopped = False        # not given up: the retry was due (zero back-off), its readiness poll failed
                     if stopped and ncalls < max(1, req["max"]) and cfg["budget"] is None:
@@ -827,12 +849,18 @@ def mon_budget(case, lines, meta):
                 continue
             if ncalls.get(c, 0) >= req["max"]:
                 continue                        # exhausted: the budget is not consulted
-            nt, nw = tparse(lines[i + 1]) if i + 1 < len(lines) else (None, [])
-            stopped = nw[:2] == ["result", c] and not (nw[2] == READY_ERR and "e" in cfg["ready"])
+            j = _after_budget(lines, i, c)
+            nt, nw = tparse(lines[j]) if j < len(lines) else (None, [])
+            answers = [_budget_line(l, c)[1] for l in lines[i + 1:j]]
+            stopped = nw[:2] == ["result", c] and not (nw[2] == READY_ERR and "e" in cfg["ready"] and answers != [False])
             if stopped:
                 if bud.withdraw():
                     return "line %d: request %s was refused a retry although the budget could grant one" % (i, c)
+                if answers and answers != [False]:
+                    return "line %d: request %s stopped although the budget answered %s" % (i, c, answers)
             else:
+                if answers and answers != [True]:
+                    return "line %d: request %s goes on to retry %d although the budget answered %s" % (i, c, ncalls.get(c, 0), answers)
                 if not bud.withdraw():
                     return "line %d: request %s goes on to retry %d without a grant (balance %d, cost %d)" % (
                         i, c, ncalls.get(c, 0), bud.tokens, cost)
@@ -861,6 +889,67 @@ def mon_budget(case, lines, meta):
                     return "line %d: %s answered for a budget that has no current_max()" % (i, w[1])
                 if int(w[1][6:]) != bud.limit:
                     return "line %d: current_max() = %s, sequential budget has %d" % (i, w[1][6:], bud.limit)
+    return None
+
+
+def mon_grant(case, lines, meta):
+    """the order of grant and retry, on the log: with a budget the loop asks it after every retryable failure that leaves
+    attempts (and only then, once); every inner call of a request after its first is preceded, since the previous one, by
+    a `grant` line of that request; a `refused` line is followed at once by the result, which is the outcome of the
+    attempt that just failed; the layer reports exactly the refusals (`BudgetExhausted`, with the number of attempts made);
+    without a budget there is no budget line"""
+    cfg = _cfg(case)
+    ncalls, granted, last_done = {}, {}, {}
+    exhausted = dict((pos, m.split()) for pos, m in meta if m.startswith("#budget_exhausted"))
+    for i, l in enumerate(lines):
+        t, w = tparse(l)
+        if not w:
+            continue
+        c = w[1] if len(w) > 1 else None
+        req = cfg["reqs"].get(c)
+        if w[0] == "inner_call":
+            if ncalls.get(c, 0) >= 1 and cfg["budget"] is not None and not granted.get(c):
+                return "line %d: request %s starts retry %d without a grant line since its previous attempt" % (i, c, ncalls[c])
+            granted[c] = False
+            ncalls[c] = ncalls.get(c, 0) + 1
+        elif w[0] == "inner_done":
+            last_done[c] = (i, w[2], w[3])
+            ek = _errkind(w[3])
+            if cfg["budget"] is not None and req is not None and ek is not None and cfg["retryable"](ek) \
+                    and ncalls.get(c, 0) < req["max"]:
+                if i + 1 >= len(lines) or _budget_line(lines[i + 1], c) is None:
+                    return "line %d: attempt %d of request %s failed with a retryable error, attempts are left, but the budget was not asked" % (
+                        i, ncalls.get(c, 0) - 1, c)
+        elif w[0] == "budget":
+            bl = _budget_line(l)
+            if cfg["budget"] is None or bl is None or req is None:
+                return "line %d: `%s` - no budget is configured / not a request" % (i, l)
+            d = last_done.get(c)
+            if d is None or d[0] != i - 1:
+                return "line %d: the budget was asked for request %s, but not right after a failed attempt of it" % (i, c)
+            ek = _errkind(d[2])
+            if ek is None or not cfg["retryable"](ek):
+                return "line %d: the budget was asked for request %s after outcome %s (no retry is due: the predicate comes first)" % (i, c, d[2])
+            if ncalls.get(c, 0) >= req["max"]:
+                return "line %d: the budget was asked for request %s with its attempts exhausted (%d of %d)" % (i, c, ncalls.get(c, 0), req["max"])
+            if bl[1]:
+                granted[c] = True
+            else:
+                want = "result %s err:inner%d:%s" % (c, ek, d[1])
+                got = " ".join(tparse(lines[i + 1])[1]) if i + 1 < len(lines) else "<nothing>"
+                if got != want:
+                    return "line %d: request %s was refused a retry; it must end at once with its last outcome (%s), next line: %s" % (i, c, want, got)
+                ex = exhausted.pop(i + 1, None)
+                if ex is None:
+                    return "line %d: request %s was refused by the budget but the layer did not report BudgetExhausted" % (i, c)
+                if len(ex) != 2 or ex[1] != str(ncalls.get(c, 0)):
+                    return "line %d: BudgetExhausted reports attempt %s, request %s had made %d attempts" % (i, ex[1:], c, ncalls.get(c, 0))
+        elif w[0] == "result":
+            if granted.get(c) and not (w[2] == READY_ERR and "e" in cfg["ready"]):
+                return "line %d: request %s ends with %s after the budget granted a retry" % (i, c, w[2])
+    if exhausted:
+        pos = sorted(exhausted)[0]
+        return "the layer reported BudgetExhausted (before line %d) where the budget had not refused" % pos
     return None
 
 
@@ -919,6 +1008,17 @@ def transitions(case, lines, meta=None):
                         tags.append("stop-max-attempts-0")
                 else:
                     tags.append("stop-budget-refused")
+    pend = {}
+    for l in lines:
+        _, w = tparse(l)
+        bl = _budget_line(l)
+        if bl is not None:
+            tags.append("budget-line-grant" if bl[1] else "budget-line-refused")
+            pend[bl[0]] = bl[1]
+        elif w and w[0] == "inner_call":
+            pend[w[1]] = False
+        elif w and w[0] == "result" and pend.get(w[1]):
+            tags.append("grant-spent-without-retry")      # a readiness error after the grant: the token is not refunded
     hkv = kvs(case["header"])
     iv = cfg["ivl"]
     if iv is not None:
@@ -1029,7 +1129,7 @@ ALL = ["first-call", "retry-same-instant", "retry-after-sleep", "retry-exactly-a
        "readiness-script", "readiness-script-with-pending", "readiness-recovery-time", "retry-delayed-by-readiness",
        "stop-readiness-error", "via-preset", "named", "budget-aimd-builder", "budget-bucket-builder-options",
        "budget-builder-default-field", "several-services-one-layer", "service-from-layer-clone", "handle-reused",
-       "handle-cloned-after-call"]
+       "handle-cloned-after-call", "budget-line-grant", "budget-line-refused", "grant-spent-without-retry"]
 
 LEVEL_NOTE = ("Trusted: Lean kernel; the transcription of the retry loop (lib.rs) and of the sequential semantics of "
               "TokenBucketBudget / AimdBudget / AimdController in TR.Model.Retry, validated only by the sampled correspondence "
@@ -1055,13 +1155,14 @@ SPECS = {
         "module": "TR.Props.C05",
         "monitors": [("c05-attempt-bounds", mon_attempts), ("c05-stop-rule", mon_stop),
                      ("c05-returns-last-outcome", mon_result), ("c05-backoff-gap", mon_backoff),
-                     ("c05-budget-no-grant-no-retry", mon_budget), ("c05-ready-before-every-attempt", mon_ready)],
+                     ("c05-budget-no-grant-no-retry", mon_budget), ("c05-ready-before-every-attempt", mon_ready),
+                     ("c05-grant-before-retry", mon_grant)],
         "transitions": transitions,
         "nontrivial": nontrivial,
         "canon": canon,
         "all_transitions": ALL,
-        "model_modules": ["TR.Model.Retry", "TR.Lemmas.Retry"],
-        "lean_files": ["TR.Model.Retry", "TR.Lemmas.Retry"],
+        "model_modules": ["TR.Model.Retry", "TR.Lemmas.Retry", "TR.Lemmas.RetryLog", "TR.Lemmas.RetryLogOrder"],
+        "lean_files": ["TR.Model.Retry", "TR.Lemmas.Retry", "TR.Lemmas.RetryLog", "TR.Lemmas.RetryLogOrder"],
         "sizes": (800, 40000),
         "rule": "seeded random op sequences over 1..6 requests sharing one retry layer (and one budget): max_attempts absent/0..6 "
                 "fixed or per request (ma=0..7), predicate bitmask over error kinds 1..3 or none, back-off default/fixed/exponential/"
@@ -1079,10 +1180,13 @@ SPECS = {
                 "builder's defaults); 14 % of the cases with a script of the inner service's answers to the readiness polls between attempts "
                 "(r/p/e) and / or a recovery time of 1..12 ms per instance; a quarter of the requests through service 0..2 built lazily from the one "
                 "layer value (some through a clone of the layer), a fifth on a kept handle (reused, or cloned after its calls); "
+                "every try_withdraw of the loop is a compared log line (`budget <c> grant|refused`), the layer's BudgetExhausted event a meta line; "
                 "distinct = distinct implementation event log; non-trivial = at least one retry, a stop by "
                 "predicate/exhaustion/budget/panic, or a cancelled inner call",
         "trusted": ["tokio sleep semantics and the sequential budget semantics as transcribed in TR.Model.Retry (sampled by the correspondence check)",
-                    "harness: clock_gettime interposition, manual poller, scripted inner service", "python diff/monitors"],
+                    "harness: clock_gettime interposition, manual poller, scripted inner service; the budget handed to the layer is a logging "
+                    "wrapper around the real budget, the request a `try_withdraw` belongs to is the one whose call future is being polled",
+                    "python diff/monitors"],
         "assumptions": ["one poll of one call future is atomic (single-threaded runtime)",
                         "a readiness error of the inner service between attempts ends the request whatever the predicate says (lib.rs: `poll_ready(..).await?`), "
                         "and the budget token withdrawn for that retry is not refunded: modelled as the code does it; the property's quantifier "
@@ -1111,7 +1215,21 @@ SPECS = {
                       "further call (readiness_error_is_the_last_outcome), which is impossible for a service that never errs "
                       "(ready_service_never_unready). A poll, drop or arrival of one request leaves the record of every other request "
                       "untouched (several services / handles / clones of one layer share the budget and nothing else). "
-                      "The model is tied to the real RetryLayer by line-for-line agreement of event logs.",
+                      "Over the TIMESTAMPED log (State.log: every line with the instant the driver prints; log_stamps_are_the_printed_instants, "
+                      "log_instants_never_decrease): the lines of a request are exactly what its ghost record says, in order "
+                      "(request_lines_of_the_log: one block inner_call, inner_done[, budget c grant] per attempt that failed and was followed by a "
+                      "back-off, then a tail by phase; inner_call_line_iff / inner_done_line_iff: Att.start, Att.seen, Att.out are the instants and "
+                      "outcomes on the lines; budget_lines_are_the_grants; every_attempt_follows_script), hence: between 1 and max(1,max_attempts) "
+                      "inner_call lines; the result is the outcome on the request's last inner_done line or the readiness error that ended it, and "
+                      "nothing of the request follows it (result_is_the_last_inner_done_line); consecutive inner_call lines are separated by the "
+                      "inner_done of the first and are at least the answered back-off apart, in microseconds "
+                      "(consecutive_inner_calls_wait_the_backoff); with a budget every inner_call line after the first is immediately preceded, among "
+                      "the request's lines, by its grant line, and without a budget there is no budget line (every_retry_is_preceded_by_its_grant); a "
+                      "refused line is followed by the result with the last outcome and ends the request (a_refusal_ends_the_request); a readiness "
+                      "error after the back-off spends the grant without a call and refunds nothing (readiness_error_refunds_nothing, "
+                      "readiness_error_spends_grant_without_call, shared_budget_bound_counts_grants). "
+                      "The model is tied to the real RetryLayer by line-for-line agreement of event logs (the budget's answers included: "
+                      "`budget <c> grant|refused`, logged by a wrapper around the budget handed to the layer).",
         "level_note": LEVEL_NOTE,
     },
 }
